@@ -21,8 +21,14 @@ def acctName (a : Nat) : String :=
 
 def BAL0 : Nat := 2 ^ 125
 
-def initBal : Bal :=
-  let one (who : Nat) : Bal := [0, 1, 2, 3, 4].map (fun a => ((who, a), BAL0))
+/-- asset ids of the observation: the five assets and their wrong-kind look-alikes -/
+def assetIds : List Nat := [0, 1, 2, 3, 4, 5, 6, 7, 8, 9]
+
+/-- every actor holds 2^125 of the five assets and of the native look-alikes of the cw20 ones -/
+def initBal (c : Cfg) : Bal :=
+  let one (who : Nat) : Bal :=
+    [0, 1, 2, 3, 4].map (fun a => ((who, a), BAL0))
+      ++ ([5, 6, 7, 8, 9].filter (fun a => c.native a)).map (fun a => ((who, a), BAL0))
   (one 1) ++ (one 2) ++ (one 3) ++ (one 4) ++ (one 5) ++ [((PAIR, 0), BAL0)]
 
 /-- insertion sort on a key -/
@@ -73,7 +79,7 @@ def observe (outcome : String) (d : DSt) : String :=
   let rw := actors.map (fun p => s!" rw.{p.1}={showRewards s p.2 ep}")
   let fl := dashIfEmpty (join ";" (s.flows.map showFlow))
   let bal := accts.map (fun p =>
-    s!" b.{p.1}=" ++ join "," ([0, 1, 2, 3, 4].map (fun a => toString (balOf s p.2 a))))
+    s!" b.{p.1}=" ++ join "," (assetIds.map (fun a => toString (balOf s p.2 a))))
   s!"{outcome} ep={ep} gw={s.global} snap={snap} aw={aw}" ++ String.join pos ++ String.join sh ++ String.join rw
     ++ s!" fl={fl}" ++ String.join bal
 
@@ -91,11 +97,11 @@ def initLine (ws : List String) : Option DSt × String :=
     let mindur ← lookupNat m "mindur"
     let maxdur ← lookupNat m "maxdur"
     let e0 ← lookupNat m "e0"
-    if fee ≥ 5 || maxflows = 0 || mindur > maxdur then none
+    let cfg : Cfg := { lpNative := lpNative, feeAsset := fee, feeAmt := feeamt, maxFlows := maxflows,
+                       buffer := buffer, minDur := mindur, maxDur := maxdur }
+    if fee ≥ 10 || cfg.dead fee || maxflows = 0 || mindur > maxdur then none
     else
-      some { cfg := { lpNative := lpNative, feeAsset := fee, feeAmt := feeamt, maxFlows := maxflows,
-                      buffer := buffer, minDur := mindur, maxDur := maxdur },
-             st := Inc.init e0 initBal, epoch := e0 }
+      some { cfg := cfg, st := Inc.init e0 (initBal cfg), epoch := e0 }
   match r with
   | some d => (some d, observe "ok" d)
   | none => (none, "bad-op")
@@ -105,14 +111,15 @@ def actorId (s : String) : Option Nat := (actors.find? (fun p => p.1 == s)).map 
 def optNat (s : String) : Option (Option Nat) := if s == "-" then some none else s.toNat?.map some
 def optActor (s : String) : Option (Option Nat) := if s == "-" then some none else (actorId s).map some
 
-def parseOffers : List String → List (Nat × Nat) → Option (List (Nat × Nat))
+/-- offers: any of the ten asset ids except a token that does not exist (no allowance can be given on it) -/
+def parseOffers (c : Cfg) : List String → List (Nat × Nat) → Option (List (Nat × Nat))
   | [], acc => some acc.reverse
   | t :: ts, acc =>
     match t.splitOn ":" with
     | [x, y] =>
       match x.toNat?, y.toNat? with
       | some a, some v =>
-        if a ≥ 5 || v = 0 || acc.any (fun o => o.1 == a) then none else parseOffers ts ((a, v) :: acc)
+        if a ≥ 10 || c.dead a || v = 0 || acc.any (fun o => o.1 == a) then none else parseOffers c ts ((a, v) :: acc)
       | _, _ => none
     | _ => none
 
@@ -132,16 +139,20 @@ def parseOp (name : String) (args : List String) : Option (Op × List String) :=
   | "snapshot", rest => some (.snapshot, rest)
   | "open_flow", a :: v :: s :: e :: rest => do
     let a ← a.toNat?; let v ← v.toNat?; let s ← optNat s; let e ← optNat e
-    if a ≥ 5 then none else pure (.openFlow a v s e, rest)
+    if a ≥ 10 then none else pure (.openFlow a v s e, rest)
   | "expand_flow", i :: a :: v :: e :: rest => do
     let i ← i.toNat?; let a ← a.toNat?; let v ← v.toNat?; let e ← optNat e
-    if a ≥ 5 then none else pure (.expandFlow i a v e, rest)
+    if a ≥ 10 then none else pure (.expandFlow i a v e, rest)
   | "close_flow", i :: rest => do
     let i ← i.toNat?
     pure (.closeFlow i, rest)
   | "helper_deposit", a0 :: a1 :: d :: rest => do
     let a0 ← a0.toNat?; let a1 ← a1.toNat?; let d ← d.toNat?
     pure (.helperDeposit a0 a1 d, rest)
+  | "helper_deposit_as", x0 :: x1 :: a0 :: a1 :: d :: rest => do
+    let x0 ← x0.toNat?; let x1 ← x1.toNat?; let a0 ← a0.toNat?; let a1 ← a1.toNat?; let d ← d.toNat?
+    if !((x0 = 1 || x0 = 6) && (x1 = 3 || x1 = 8)) || (x0 = 1 && x1 = 3) then none
+    else pure (.helperDepositAs x0 x1 a0 a1 d, rest)
   | _, _ => none
 
 def opLine (d : DSt) (ws : List String) : DSt × String :=
@@ -152,7 +163,7 @@ def opLine (d : DSt) (ws : List String) : DSt × String :=
       let tm ← tm.toNat?
       let who ← actorId who
       let (op, rest) ← parseOp name args
-      let offers ← parseOffers rest []
+      let offers ← parseOffers d.cfg rest []
       pure ({ epoch := ep, time := tm, sender := who, offers := offers }, op)
     match r with
     | none => (d, "bad-op")
